@@ -125,6 +125,13 @@ def run(ctx, chk):
     fns = [prog.need(s, rule="R6.2") for s in starts]
     ext, parent = cg.reach_ext(fns)
     reach = cg.reachable(fns)
+    # the verifier is a function of (signature, message, public key) alone as well: the global-state clauses below
+    # (R6.2-g) also cover everything reachable from the verification entry points - a table kept in a function-local
+    # `static` makes the verdict depend on what other threads / earlier calls left there
+    vstarts = ["_crypto_sign_ed25519_verify_detached", "crypto_sign_ed25519_verify_detached", "crypto_sign_ed25519_open",
+               "crypto_sign_ed25519ph_final_verify", "crypto_sign_verify_detached", "crypto_sign_open", "crypto_sign_final_verify"]
+    vreach = cg.reachable([prog.need(s, rule="R6.2-g") for s in vstarts])
+    chk.floor("R6.2-g", "functions reachable from the verification entry points", len(vreach), 30)
     chk.floor("R6.2", "functions reachable from signing / seeded key generation", len(reach), 40)
     bad = sorted(x for x in ext if x in ENTROPY_EXT or x.startswith("randombytes"))
     rb = [k for k in reach if (k if isinstance(k, str) else k[1]).startswith("randombytes")]
@@ -134,12 +141,12 @@ def run(ctx, chk):
            key="R6.2 signing reaches-randomness")
     # global state
     nst = 0
-    for k in sorted(reach, key=str):
+    for k in sorted(set(reach) | set(vreach), key=str):
         f = cg.by_key[k]
         wg = cg.writes_globals(f)
         local_store = [g for g in wg if g != "*"]
         nst += 1
-        chk.ob("R6.2-g", f, "no store to process-global state in the signing call graph", not local_store,
+        chk.ob("R6.2-g", f, "no store to process-global state in the signing / verification call graph", not local_store,
                detail="stores to %s" % local_store if local_store else "", key="R6.2-g %s" % f.sname)
         for iid, ins in enumerate(f.insts):
             if ins["op"] != "load":
@@ -159,5 +166,5 @@ def run(ctx, chk):
                 continue
             written = any(cg.gkey(gd[0], g) in cg.globals_written_at(w) for w in prog.functions())
             if not gd[1]["const"] and not gd[1]["tls"] and written:
-                chk.ob("R6.2-g", f, "no load of mutable process-global state in the signing call graph", False,
+                chk.ob("R6.2-g", f, "no load of mutable process-global state in the signing / verification call graph", False,
                        loc=f.loc(iid), detail="loads mutable global %s" % g, key="R6.2-g %s load-%s" % (f.sname, g))
